@@ -2,8 +2,8 @@
 # confirm_seed.sh <PID> <k> : confirm a sub-agent's seeded change in a scratch worktree and keep it
 # under /verif/seeded/<PID>-<k>/ (patch.diff, demo.py, meta.json).
 set -u
-PID=$1; K=$2
-OUT=/tmp/seed/out_$PID
+PID=$1; K=$2; SFX=${3:-}; DK=${4:-$K}
+OUT=/tmp/seed/out_$PID$SFX
 WT=$(mktemp -d /tmp/confirm_${PID}_${K}_XXXX)
 rmdir $WT
 git -C /repo worktree add -q --detach $WT HEAD || exit 2
@@ -19,7 +19,7 @@ PYTHONPATH=$WT timeout 120 /venv/bin/python $OUT/demo_$K.py >/tmp/confirm_${PID}
 MIROS_REPO=$WT /verif/tools/baseline.py > /tmp/confirm_${PID}_${K}.tests 2>&1; TESTS=$?
 echo "$PID-$K: demo clean rc=$CLEAN, demo changed rc=$CHANGED, tests rc=$TESTS ($(tail -1 /tmp/confirm_${PID}_${K}.tests))"
 if [ $CLEAN -eq 0 ] && [ $CHANGED -ne 0 ] && [ $CHANGED -ne 124 -o 1 -eq 1 ] && [ $TESTS -eq 0 ]; then
-  D=/verif/seeded/$PID-$K; mkdir -p $D
+  D=/verif/seeded/$PID-$DK; mkdir -p $D
   cp /tmp/confirm_${PID}_${K}.diff $D/patch.diff; cp $OUT/demo_$K.py $D/demo.py
   /venv/bin/python - $OUT/meta_$K.json $D/meta.json $PID "$CLEAN" "$CHANGED" <<'PY'
 import json, sys
@@ -34,7 +34,7 @@ out = {"property": pid, "summary": m.get("summary"), "needs": m.get("needs"),
        "checks": [pid]}
 json.dump(out, open(dst, "w"), indent=1)
 PY
-  echo "$PID-$K: KEPT in $D"
+  echo "$PID-$K$SFX: KEPT in $D"
 else
   echo "$PID-$K: NOT KEPT"
 fi
